@@ -191,6 +191,13 @@ def shard_run(binpath, seed, sh, nshards, thorough):
             src = copy.deepcopy(d)
             src.setdefault("environment", None)
             res.classes["reference_bytes_from_input_document"] += 1
+        elif d.get("_type") == "layout" and all(k in d and k in w["signed"] for k in ("steps", "inspect", "readme")):
+            # for layouts the documented additions of a parse concern the key table and the spelling of the expiry; the
+            # steps, inspections and the readme are signed exactly as the document states them
+            src = copy.deepcopy(w["signed"])
+            for k in ("steps", "inspect", "readme"):
+                src[k] = copy.deepcopy(d[k])
+            res.classes["reference_bytes_from_input_layout_steps"] += 1
         ref = ref_bytes(src)
         b = blame(src)
         meta = {"field": f, "blame": b, "libsig": w["signatures"][0]["sig"], "ref": ref.decode()[:2000]}
